@@ -1,20 +1,27 @@
 // C08 driver: replays TLC-generated session histories (spec/ConnState.tla) on two or three REAL
-// SessionManagers (srvkit assemblies, one per node) whose connstate.Store instances share ONE
-// store, in the three wirings internal/app/server/storage.go builds (package wire: memory,
-// redis, tiered).
+// SessionManagers (srvkit assemblies, one per node), each holding the storage its wiring gives it
+// over ONE shared store, in the three wirings internal/app/server/storage.go builds (package wire:
+// memory, redis, tiered).  Client configs, the cloud-control client runtime state and the id
+// generators are shared as in a deployment.
 //
 // Events are the session layer's own: AcceptConnection, the two-phase control handshake
 // (HandlePacket -> handleHandshake), the same handshake with a transport that dies at the write of
 // the final response (AuthLost), heartbeat packets (handleHeartbeat) and the end of a connection by
-// cause - read loop ended, Disconnect command, KickOldControlConnection, stale sweep after a
-// heartbeat timeout - each ending in CloseConnection; the connstate calls are whatever the real
-// SessionManager makes.  After every event the driver asks
-// every node's connstate.Store.FindClientNode for every client and records the routing decision
-// of SessionManager.SendCommandToClient; spec/ConnStateTrace.tla judges them.
+// cause - read loop ended, Disconnect command, KickOldControlConnection, the server's own stale
+// sweep after a heartbeat timeout - each ending in CloseConnection; the connstate calls are whatever
+// the real SessionManager makes.  A heartbeat, a close or a handshake can also be driven with its
+// connstate operation IN FLIGHT (OpBegin / OpStep): the event runs as a scheduler process that parks
+// in front of every storage call on the registry's keys, and other events run in between.
+// After every event the driver asks every node's connstate.Store.FindClientNode for every client,
+// records the routing decision of SessionManager.SendCommandToClient and of
+// SessionManager.SendHTTPProxyRequest, and reads the client runtime state through every node's
+// ClientStateRepository / GetClientNodeID; spec/ConnStateTrace.tla judges them.
 package main
 
 import (
 	"context"
+	"crypto/rand"
+	"encoding/base64"
 	"encoding/json"
 	"errors"
 	"fmt"
@@ -27,6 +34,7 @@ import (
 	"tunnox-core/internal/cloud/repos"
 	"tunnox-core/internal/core/storage"
 	"tunnox-core/internal/packet"
+	"tunnox-core/internal/protocol/httptypes"
 	"tunnox-core/internal/protocol/session"
 	"tunnox-core/verifharness/drivers/c08/wire"
 	"tunnox-core/verifharness/fw"
@@ -34,24 +42,66 @@ import (
 	"tunnox-core/verifharness/srvkit"
 )
 
-// gatedReads puts a scheduler gate in front of reads of connection records
-// (tunnox:conn_state:<conn>).  Only goroutines the driver started through the scheduler park
-// there - a two-step lookup (LkBegin .. LkEnd): FindClientNode has read the client index and
-// waits before reading the record the index named; everything else passes straight through.
+// gatedStore puts a scheduler gate in front of every keyed storage call on the location registry's
+// keys (tunnox:conn_state:<conn>, tunnox:client_conn:<client>).  Only goroutines the driver started
+// through the scheduler park there: a two-step lookup (LkBegin .. LkEnd: FindClientNode has read the
+// client index and waits before reading the record the index named) and a store operation in flight
+// (OpBegin .. OpStep*: a heartbeat's RefreshConnection, a close's UnregisterConnection, a handshake's
+// RegisterConnection, one storage call per OpStep); everything else passes straight through.
 //
 // It embeds the concrete *hybrid.Storage so that every optional interface the code may probe for
 // (CASStore, ListStore, ...) is still visible through the wrapper exactly as on the real storage.
-type gatedReads struct {
+type gatedStore struct {
 	*storage.HybridStorage
 	s *sched.Sched
 }
 
-func (g *gatedReads) Get(key string) (any, error) {
-	if strings.HasPrefix(key, "tunnox:conn_state:") {
-		g.s.Gate("cs.GetRecord", map[string]any{"key": key})
-		defer g.s.After()
+const (
+	recPrefix = "tunnox:conn_state:"
+	idxPrefix = "tunnox:client_conn:"
+)
+
+func (g *gatedStore) gate(op, key string) func() {
+	if strings.HasPrefix(key, recPrefix) || strings.HasPrefix(key, idxPrefix) {
+		g.s.Gate("cs."+op, map[string]any{"key": key})
+		return g.s.After
 	}
+	return func() {}
+}
+
+func (g *gatedStore) Get(key string) (any, error) {
+	defer g.gate("Get", key)()
 	return g.HybridStorage.Get(key)
+}
+
+func (g *gatedStore) Set(key string, value any, ttl time.Duration) error {
+	defer g.gate("Set", key)()
+	return g.HybridStorage.Set(key, value, ttl)
+}
+
+func (g *gatedStore) Delete(key string) error {
+	defer g.gate("Delete", key)()
+	return g.HybridStorage.Delete(key)
+}
+
+func (g *gatedStore) Exists(key string) (bool, error) {
+	defer g.gate("Exists", key)()
+	return g.HybridStorage.Exists(key)
+}
+
+func (g *gatedStore) SetExpiration(key string, ttl time.Duration) error {
+	defer g.gate("SetExpiration", key)()
+	return g.HybridStorage.SetExpiration(key, ttl)
+}
+
+func (g *gatedStore) SetNX(key string, value any, ttl time.Duration) (bool, error) {
+	defer g.gate("SetNX", key)()
+	return g.HybridStorage.SetNX(key, value, ttl)
+}
+
+func (g *gatedStore) CompareAndSwap(key string, oldValue, newValue any, ttl time.Duration) (bool, error) {
+	defer g.gate("CompareAndSwap", key)()
+	return g.HybridStorage.CompareAndSwap(key, oldValue, newValue, ttl)
 }
 
 func gate(st storage.Storage, s *sched.Sched) storage.Storage {
@@ -59,7 +109,7 @@ func gate(st storage.Storage, s *sched.Sched) storage.Storage {
 	if !ok {
 		panic(fmt.Sprintf("wiring storage is %T, expected *hybrid.Storage", st))
 	}
-	return &gatedReads{HybridStorage: h, s: s}
+	return &gatedStore{HybridStorage: h, s: s}
 }
 
 // Discrete clock of the model -> real time.  Registration lifetime = 2 ticks.
@@ -112,8 +162,11 @@ type cluster struct {
 	nodeOf  map[string]string       // real node id -> model node name
 	peers   map[string]*peer
 	sch     *sched.Sched
+	states  map[string]*repos.ClientStateRepository // node -> client runtime state as that node's storage presents it
 	lkProc  string // scheduler process of the two-step lookup in flight
 	nLk     int
+	op      *inFlight // the store operation in flight (OpBegin .. OpEnd)
+	nOp     int
 	cancel  context.CancelFunc
 	closers []func()
 }
@@ -143,6 +196,7 @@ type peer struct {
 	ln   net.Listener
 	mu   sync.Mutex
 	got  []int64 // target client ids of received command frames
+	http []int64 // target client ids of received HTTP proxy frames
 }
 
 func (p *peer) serve() {
@@ -157,6 +211,22 @@ func (p *peer) serve() {
 				_, ft, data, err := session.ReadFrameFromReader(c)
 				if err != nil {
 					return
+				}
+				if ft == session.FrameTypeHTTPProxy {
+					var m session.HTTPProxyMessage
+					if json.Unmarshal(data, &m) != nil {
+						return
+					}
+					p.mu.Lock()
+					p.http = append(p.http, m.ClientID)
+					p.mu.Unlock()
+					resp, _ := json.Marshal(httptypes.HTTPProxyResponse{RequestID: m.RequestID, StatusCode: 204})
+					body, _ := json.Marshal(session.HTTPProxyResponseMessage{RequestID: m.RequestID, Response: resp})
+					var id [16]byte
+					if session.WriteFrameToWriter(c, id, session.FrameTypeHTTPResponse, body) != nil {
+						return
+					}
+					continue
 				}
 				if ft != session.FrameTypeCommand {
 					continue
@@ -186,6 +256,14 @@ func (p *peer) take() []int64 {
 	return g
 }
 
+func (p *peer) takeHTTP() []int64 {
+	p.mu.Lock()
+	defer p.mu.Unlock()
+	g := p.http
+	p.http = nil
+	return g
+}
+
 func newCluster(be string, nodes, clients []string) (*cluster, error) {
 	ctx, cancel := context.WithCancel(context.Background())
 	w, err := wire.New(ctx, be, nodes)
@@ -194,19 +272,30 @@ func newCluster(be string, nodes, clients []string) (*cluster, error) {
 		return nil, err
 	}
 	cl := &cluster{nodes: nodes, srv: map[string]*srvkit.Server{}, w: w, creds: map[string]cred{}, byID: map[int64]string{},
-		conns: map[string]*srvkit.Conn{}, connOf: map[string]string{}, nodeOf: map[string]string{}, peers: map[string]*peer{}, cancel: cancel, sch: sched.New(false)}
+		conns: map[string]*srvkit.Conn{}, connOf: map[string]string{}, nodeOf: map[string]string{}, peers: map[string]*peer{}, cancel: cancel, sch: sched.New(false),
+		states: map[string]*repos.ClientStateRepository{}}
 	cl.sch.Watchdog = 2 * time.Second
+	// every node's server holds the storage its wiring gives it - ONE shared store behind all of them,
+	// as in a deployment: client configs, the cloud-control client runtime state, id generators are
+	// shared, and so is the master key the stored credentials are encrypted with
+	mk := make([]byte, 32)
+	if _, err := rand.Read(mk); err != nil {
+		cancel()
+		return nil, err
+	}
 	for _, n := range nodes {
-		s, err := srvkit.NewServer(srvkit.Options{NodeID: "node-" + n, HeartbeatTimeout: time.Hour, CleanupInterval: time.Hour})
+		s, err := srvkit.NewServer(srvkit.Options{NodeID: "node-" + n, HeartbeatTimeout: time.Hour, CleanupInterval: time.Hour,
+			Storage: w.Stores[n], MasterKey: base64.StdEncoding.EncodeToString(mk)})
 		if err != nil {
 			cl.Close()
 			return nil, err
 		}
 		cl.srv[n] = s
 		cl.nodeOf["node-"+n] = n
+		cl.states[n] = repos.NewClientStateRepository(s.Ctx, s.Storage)
 	}
-	// identities: issued by the first node (real first-connect handshake), then made known to the
-	// other nodes' client-config repositories (in production all nodes read one repository)
+	// identities: issued by the first node (real first-connect handshake); the other nodes read the
+	// same client-config repository
 	first := cl.srv[nodes[0]]
 	for _, x := range clients {
 		c, err := first.NewConn("10.9.9.9")
@@ -284,17 +373,17 @@ func (cl *cluster) closeBy(n string, c *srvkit.Conn, x, why string) string {
 		s.Kick(cl.creds[x].id, "")
 		c.Disconnect() // the read loop ends on the closed stream: cleanupConnection -> CloseConnection
 	case "sweep":
-		// the client went silent: its last activity is an hour old, everybody else's is recent, and
-		// the stale sweep runs (ClientRegistry.CleanupStale with the callback cleanupStaleConnections
-		// passes: entry removed FIRST, then SessionManager.CloseConnection, then the stream is closed)
+		// the client went silent: its last activity is two hours old (heartbeat timeout of the assembly:
+		// one hour), everybody else's is recent, and the server's own stale sweep runs
+		// (SessionManager.cleanupStaleConnections: ClientRegistry.CleanupStale removes the entry FIRST,
+		// then the callback - DisconnectClientIfMatch, SessionManager.CloseConnection -, then the stream
+		// is closed)
 		cc := s.SM.GetClientRegistry().GetByConnID(c.ID)
 		if cc == nil {
 			return "sweep: connection is not in the control registry"
 		}
-		cc.LastActiveAt = time.Now().Add(-time.Hour)
-		swept := s.SM.GetClientRegistry().CleanupStale(30*time.Minute, func(connID string, clientID int64, authenticated bool) error {
-			return s.SM.CloseConnection(connID)
-		})
+		cc.LastActiveAt = time.Now().Add(-2 * time.Hour)
+		swept := cleanupStaleConnections(s.SM)
 		if swept != 1 {
 			return fmt.Sprintf("sweep removed %d connections", swept)
 		}
@@ -305,25 +394,13 @@ func (cl *cluster) closeBy(n string, c *srvkit.Conn, x, why string) string {
 	return ""
 }
 
-// shareIdentity makes the identity that node `from` issued to client x known to every other node's
-// client-config repository and to the driver.
+// shareIdentity records the identity that node `from` issued to client x and makes sure every other
+// node reads it from the shared client-config repository.
 func (cl *cluster) shareIdentity(from, x string, id int64, secret string) error {
-	cfg, err := repos.NewClientConfigRepository(cl.srv[from].Repo).GetConfig(id)
-	if err != nil {
-		return fmt.Errorf("provisioning %s: %v", x, err)
-	}
 	for _, n := range cl.nodes {
-		if n == from {
-			continue
-		}
-		cp := *cfg
-		enc, err := cl.srv[n].Keys.Encrypt(secret)
-		if err != nil {
-			return err
-		}
-		cp.SecretKeyEncrypted = enc
-		if err := repos.NewClientConfigRepository(cl.srv[n].Repo).CreateConfig(&cp); err != nil {
-			return fmt.Errorf("provisioning %s on %s: %v", x, n, err)
+		cfg, err := repos.NewClientConfigRepository(cl.srv[n].Repo).GetConfig(id)
+		if err != nil || cfg == nil {
+			return fmt.Errorf("provisioning %s: node %s does not see the identity node %s issued: %v", x, n, from, err)
 		}
 	}
 	cl.creds[x] = cred{id, secret}
@@ -340,10 +417,12 @@ func (cl *cluster) observe() fw.Event {
 	sort.Strings(clients)
 	finds := []any{}
 	routes := []any{}
+	states := []any{}
 	for _, n := range cl.nodes {
 		s := cl.srv[n]
 		for _, x := range clients {
 			id := cl.creds[x].id
+			states = append(states, cl.stateOf(n, x))
 			node, conn, err := s.SM.GetConnectionStateStore().FindClientNode(ctx, id)
 			f := map[string]any{"from": n, "x": x, "node": "-", "conn": "-"}
 			switch {
@@ -371,10 +450,39 @@ func (cl *cluster) observe() fw.Event {
 				f["err"] = err.Error()
 			}
 			finds = append(finds, f)
-			routes = append(routes, cl.route(n, x))
+			routes = append(routes, cl.route(n, x), cl.routeHTTP(n, x))
 		}
 	}
-	return fw.Event{"ev": "Obs", "finds": finds, "routes": routes}
+	return fw.Event{"ev": "Obs", "finds": finds, "routes": routes, "states": states}
+}
+
+// stateOf records the other answer the shared store gives node n to "where is client x": the
+// cloud-control client runtime state (ClientStateRepository.GetState on the node's storage) and what
+// the node's cloud control makes of it (GetClientNodeID).
+func (cl *cluster) stateOf(n, x string) map[string]any {
+	id := cl.creds[x].id
+	f := map[string]any{"from": n, "x": x, "node": "-", "conn": "-", "svc": "-"}
+	name := func(m map[string]string, v string) string {
+		if k, ok := m[v]; ok {
+			return k
+		}
+		return "?" + v
+	}
+	st, err := cl.states[n].GetState(id)
+	switch {
+	case err != nil:
+		f["r"], f["err"] = "error", short(err.Error())
+	case st == nil || !st.IsOnline():
+		f["r"] = "none"
+	default:
+		f["r"], f["node"], f["conn"] = "found", name(cl.nodeOf, st.NodeID), name(cl.connOf, st.ConnID)
+	}
+	if node, err := cl.srv[n].Cloud.GetClientNodeID(id); err != nil {
+		f["svc"] = "!" + short(err.Error())
+	} else if node != "" {
+		f["svc"] = name(cl.nodeOf, node)
+	}
+	return f
 }
 
 // route records what SendCommandToClient(x) does on node n: deliver locally, forward to a node,
@@ -382,7 +490,7 @@ func (cl *cluster) observe() fw.Event {
 func (cl *cluster) route(n, x string) map[string]any {
 	s := cl.srv[n]
 	id := cl.creds[x].id
-	r := map[string]any{"from": n, "x": x, "node": "-"}
+	r := map[string]any{"from": n, "x": x, "node": "-", "via": "cmd"}
 	for _, p := range cl.peers {
 		p.take()
 	}
@@ -426,6 +534,52 @@ func (cl *cluster) route(n, x string) map[string]any {
 	return r
 }
 
+// routeHTTP records what SendHTTPProxyRequest(x) (http_proxy.go: its own lookup and its own
+// local / forward / refuse decision) does on node n.
+func (cl *cluster) routeHTTP(n, x string) map[string]any {
+	s := cl.srv[n]
+	id := cl.creds[x].id
+	r := map[string]any{"from": n, "x": x, "node": "-", "via": "http"}
+	for _, p := range cl.peers {
+		p.takeHTTP()
+	}
+	local := s.SM.GetControlConnectionByClientID(id)
+	if local != nil && local.Stream != nil {
+		// the local branch writes the request to that connection and waits for the client's answer;
+		// the decision itself is the registry lookup above
+		r["r"] = "local"
+		if m, ok := cl.connOf[local.ConnID]; ok {
+			r["conn"] = m
+		}
+		return r
+	}
+	req := &httptypes.HTTPProxyRequest{RequestID: fmt.Sprintf("verif-http-%s-%s-%d", n, x, time.Now().UnixNano()), Method: "GET", URL: "http://verif.invalid/", Timeout: 2}
+	_, err := s.SM.SendHTTPProxyRequest(id, req)
+	var hit []string
+	for m, p := range cl.peers {
+		for _, got := range p.takeHTTP() {
+			if got == id {
+				hit = append(hit, m)
+			}
+		}
+	}
+	sort.Strings(hit)
+	switch {
+	case len(hit) == 1:
+		r["r"], r["node"] = "forward", hit[0]
+	case len(hit) == 0 && err != nil && strings.Contains(err.Error(), "not connected"):
+		r["r"] = "none"
+		r["err"] = short(err.Error())
+	case len(hit) == 0 && err != nil:
+		r["r"] = "neterr"
+		r["err"] = short(err.Error())
+	default:
+		r["r"] = "odd"
+		r["err"] = fmt.Sprintf("hit=%v err=%v", hit, err)
+	}
+	return r
+}
+
 func short(s string) string {
 	if len(s) > 120 {
 		return s[:120]
@@ -457,6 +611,101 @@ func names(steps []step) (nodes, clients []string) {
 	return
 }
 
+// inFlight is a session event whose connstate operation runs storage call by storage call.
+type inFlight struct {
+	proc  string
+	kind  string // hb | close | auth
+	st    step
+	evicted []any         // connections whose transport the server closed in the handshake's session-layer part
+	state string          // scheduler state of the process after the latest release
+}
+
+// beginOp starts the event as a scheduler process; it runs until its first gated storage call
+// (for a handshake: until the first call of RegisterConnection(c) - the eviction of the node's older
+// connection of the client is part of the handshake's session-layer section).
+func (cl *cluster) beginOp(s step) (*inFlight, string) {
+	c := cl.conns[s.C]
+	if c == nil {
+		return nil, "operation on unknown connection " + s.C
+	}
+	o := &inFlight{st: s, kind: "close", evicted: []any{}}
+	open := map[string]bool{}
+	for m, k := range cl.conns {
+		open[m] = !k.Closed()
+	}
+	var fn func() any
+	switch s.W {
+	case "hb":
+		o.kind = "hb"
+		if c.Closed() {
+			return nil, "heartbeat on a connection the server closed"
+		}
+		fn = func() any {
+			if err := c.Heartbeat(); err != nil {
+				return "heartbeat: " + err.Error()
+			}
+			return ""
+		}
+	case "auth":
+		o.kind = "auth"
+		if c.Closed() {
+			return nil, "handshake on a connection the server closed"
+		}
+		cr := cl.creds[s.X]
+		fn = func() any {
+			if ok, err := c.Login(cr.id, cr.secret, "control"); err != nil || !ok {
+				return fmt.Sprintf("handshake of %s on %s refused (ok=%v err=%v)", s.X, s.C, ok, err)
+			}
+			return ""
+		}
+	default:
+		fn = func() any { return cl.closeBy(s.N, c, s.X, s.W) }
+	}
+	cl.nOp++
+	o.proc = fmt.Sprintf("op%d", cl.nOp)
+	o.state = cl.sch.Start(o.proc, fn)
+	if o.kind == "auth" {
+		own := recPrefix + c.ID
+		for i := 0; o.state == sched.Parked && i < 16; i++ {
+			if _, g := cl.sch.State(o.proc); g.Point == "cs.Set" && g.Info["key"] == own {
+				break
+			}
+			o.state, _ = cl.sch.Step(o.proc)
+		}
+	}
+	if o.state != sched.Parked && o.state != sched.Done {
+		return nil, "the operation neither reached a storage call nor returned (" + o.state + ")"
+	}
+	if o.kind == "auth" {
+		for m, k := range cl.conns {
+			if open[m] && k.Closed() {
+				o.evicted = append(o.evicted, m)
+			}
+		}
+	}
+	return o, ""
+}
+
+// endOp is called once the process has returned: the OpEnd event (or why the event did not apply).
+func (cl *cluster) endOp() (fw.Event, string, bool) {
+	o := cl.op
+	cl.op = nil
+	if why, _ := cl.sch.Result(o.proc).(string); why != "" {
+		if o.kind == "close" {
+			return nil, why, false // the close cause is not applicable to the connection as the server holds it
+		}
+		return nil, why, true
+	}
+	ev := fw.Event{"ev": "OpEnd", "k": o.kind, "n": o.st.N, "c": o.st.C, "x": o.st.X, "why": o.st.W}
+	if o.kind == "close" {
+		c := cl.conns[o.st.C]
+		if _, still := cl.srv[o.st.N].SM.GetConnection(c.ID); still || !c.Closed() {
+			return nil, fmt.Sprintf("connection %s survived close by %s", o.st.C, o.st.W), true
+		}
+	}
+	return ev, "", false
+}
+
 func drive(env *fw.Env, b fw.Behaviour) *fw.Trace {
 	var beh behaviour
 	if err := json.Unmarshal(b.Data, &beh); err != nil {
@@ -483,6 +732,32 @@ func drive(env *fw.Env, b fw.Behaviour) *fw.Trace {
 	t.Events = append(t.Events, fw.Event{"ev": "Cfg", "be": beh.Be, "ttl": lifeTicks})
 	segStart := time.Now() // start of the previous segment (two consecutive segments share a budget)
 	curStart := segStart
+	// record appends an event and what every node's lookup and routing decision say right after it
+	record := func(ev fw.Event) *fw.Trace {
+		t.Events = append(t.Events, ev)
+		obs := cl.observe()
+		for _, r := range obs["routes"].([]any) {
+			if m := r.(map[string]any); m["r"] == "neterr" || m["r"] == "odd" {
+				return &fw.Trace{Status: fw.Inconclusive, Note: fmt.Sprintf("peer listener trouble while observing the routing decision: %v", m["err"])}
+			}
+		}
+		t.Events = append(t.Events, obs)
+		if time.Since(segStart) > spanBudget {
+			return &fw.Trace{Status: fw.Inconclusive, Note: fmt.Sprintf("two segments and a tick took %v (> %v)", time.Since(segStart).Round(time.Millisecond), spanBudget)}
+		}
+		return nil
+	}
+	// finish records the end of the operation in flight once its process has returned
+	finish := func() *fw.Trace {
+		ev, why, bug := cl.endOp()
+		switch {
+		case why != "" && bug:
+			return &fw.Trace{Status: fw.DriverError, Note: why}
+		case why != "":
+			return &fw.Trace{Status: fw.Unrealisable, Note: why}
+		}
+		return record(ev)
+	}
 	for i, s := range beh.Steps {
 		ev := fw.Event{"ev": s.A, "n": s.N, "c": s.C, "x": s.X}
 		switch s.A {
@@ -561,8 +836,8 @@ func drive(env *fw.Env, b fw.Behaviour) *fw.Trace {
 		case "LkBegin":
 			// FindClientNode on node s.N as a scheduled process: it reads the client index and parks
 			// in front of the read of the record the index named
-			if cl.lkProc != "" {
-				return &fw.Trace{Status: fw.DriverError, Note: "two lookups in flight"}
+			if cl.lkProc != "" || cl.op != nil {
+				return &fw.Trace{Status: fw.DriverError, Note: "two lookups / operations in flight"}
 			}
 			cl.nLk++
 			name := fmt.Sprintf("lk%d", cl.nLk)
@@ -574,7 +849,10 @@ func drive(env *fw.Env, b fw.Behaviour) *fw.Trace {
 				}
 				return node + "/" + conn
 			})
-			if st != sched.Parked {
+			if _, g := cl.sch.State(name); st == sched.Parked && g.Point == "cs.Get" && strings.HasPrefix(fmt.Sprint(g.Info["key"]), idxPrefix) {
+				st, _ = cl.sch.Step(name) // the read of the client index
+			}
+			if _, g := cl.sch.State(name); st != sched.Parked || !strings.HasPrefix(fmt.Sprint(g.Info["key"]), recPrefix) {
 				return &fw.Trace{Status: fw.Unrealisable, Note: "the lookup did not reach its second read (" + st + ": " + fmt.Sprint(cl.sch.Result(name)) + ")"}
 			}
 			cl.lkProc = name
@@ -583,11 +861,70 @@ func drive(env *fw.Env, b fw.Behaviour) *fw.Trace {
 			if cl.lkProc == "" {
 				return &fw.Trace{Status: fw.DriverError, Note: "no lookup in flight"}
 			}
-			if st, _ := cl.sch.Step(cl.lkProc); st != sched.Done {
+			st, _ := cl.sch.Step(cl.lkProc)
+			for k := 0; st == sched.Parked && k < 4; k++ { // a lookup that also writes (e.g. drops an expired record)
+				st, _ = cl.sch.Step(cl.lkProc)
+			}
+			if st != sched.Done {
 				return &fw.Trace{Status: fw.DriverError, Note: "the parked lookup did not finish: " + st}
 			}
 			ev = fw.Event{"ev": "LkEnd", "m": s.N, "x": s.X, "res": fmt.Sprint(cl.sch.Result(cl.lkProc))}
 			cl.lkProc = ""
+		case "OpBegin":
+			// the event starts; its connstate operation is parked in front of its first storage call
+			if cl.lkProc != "" || cl.op != nil {
+				return &fw.Trace{Status: fw.DriverError, Note: "two lookups / operations in flight"}
+			}
+			o, why := cl.beginOp(s)
+			if o == nil {
+				return &fw.Trace{Status: fw.Unrealisable, Note: why}
+			}
+			cl.op = o
+			if bad := record(fw.Event{"ev": "OpBegin", "k": o.kind, "n": s.N, "c": s.C, "x": s.X, "why": s.W, "evicted": o.evicted}); bad != nil {
+				return bad
+			}
+			if o.state == sched.Done { // no storage call at all: the model's calls do not happen
+				t.Status = fw.Diverged
+				if bad := finish(); bad != nil {
+					return bad
+				}
+			}
+			continue
+		case "OpStep":
+			// the next storage call of the operation in flight; with w = "end" the model expects it to
+			// be the last one: whatever the event still does (e.g. the second CloseConnection of a
+			// connection closed by command / sweep, when its read loop ends) runs now, uninterrupted
+			if cl.op == nil {
+				t.Status = fw.Diverged // the real operation made fewer calls than the model's
+				continue
+			}
+			o := cl.op
+			o.state, _ = cl.sch.Step(o.proc)
+			if bad := record(fw.Event{"ev": "OpStep"}); bad != nil {
+				return bad
+			}
+			if s.W == "end" {
+				extra := 0
+				for ; o.state == sched.Parked && extra < 12; extra++ {
+					o.state, _ = cl.sch.Step(o.proc)
+				}
+				if extra > 0 && o.kind != "close" {
+					t.Status = fw.Diverged // the real operation made more calls than the model's
+				}
+			}
+			switch o.state {
+			case sched.Done:
+				if bad := finish(); bad != nil {
+					return bad
+				}
+			case sched.Parked:
+				if s.W == "end" {
+					return &fw.Trace{Status: fw.Unrealisable, Note: "the operation in flight did not come to an end"}
+				}
+			default:
+				return &fw.Trace{Status: fw.Unrealisable, Note: "the operation in flight is stuck (" + o.state + ")"}
+			}
+			continue
 		case "HB":
 			c := cl.conns[s.C]
 			if c == nil || c.Closed() {
@@ -611,16 +948,20 @@ func drive(env *fw.Env, b fw.Behaviour) *fw.Trace {
 		default:
 			return &fw.Trace{Status: fw.DriverError, Note: "unknown step " + s.A}
 		}
-		t.Events = append(t.Events, ev)
-		obs := cl.observe()
-		for _, r := range obs["routes"].([]any) {
-			if m := r.(map[string]any); m["r"] == "neterr" || m["r"] == "odd" {
-				return &fw.Trace{Status: fw.Inconclusive, Note: fmt.Sprintf("peer listener trouble while observing the routing decision: %v", m["err"])}
-			}
+		if bad := record(ev); bad != nil {
+			return bad
 		}
-		t.Events = append(t.Events, obs)
-		if time.Since(segStart) > spanBudget {
-			return &fw.Trace{Status: fw.Inconclusive, Note: fmt.Sprintf("two segments and a tick took %v (> %v)", time.Since(segStart).Round(time.Millisecond), spanBudget)}
+	}
+	if cl.op != nil { // a behaviour that ends inside the window: let the event return
+		o := cl.op
+		for k := 0; o.state == sched.Parked && k < 16; k++ {
+			o.state, _ = cl.sch.Step(o.proc)
+		}
+		if o.state != sched.Done {
+			return &fw.Trace{Status: fw.Unrealisable, Note: "the operation in flight did not come to an end"}
+		}
+		if bad := finish(); bad != nil {
+			return bad
 		}
 	}
 	return t
@@ -631,7 +972,11 @@ func drive(env *fw.Env, b fw.Behaviour) *fw.Trace {
 var seenBeh = map[string]bool{}
 var expandK int
 
-var allFixes = `{"ptrShape", "condIdxDelete", "hbRefresh", "successOnly"}`
+// treeFixes: what /repo has (patches C08-1..4); allFixes adds the repairs the tree does not have
+// (compare-and-renew / compare-and-delete of the client index; client runtime state written only after a
+// delivered response / cleared by a kick - see spec/ConnState.tla)
+var treeFixes = `{"ptrShape", "condIdxDelete", "hbRefresh", "successOnly"}`
+var allFixes = `{"ptrShape", "condIdxDelete", "hbRefresh", "successOnly", "atomicRenew", "atomicDelete", "stateAfterDelivery", "kickDisconnects"}`
 var firstThree = `{"ptrShape", "condIdxDelete", "hbRefresh"}` // repaired by patches C08-1..3
 
 // exhaustive design check: every behaviour first fixes the backend shape (ptr/str/map) and the
@@ -639,32 +984,60 @@ var firstThree = `{"ptrShape", "condIdxDelete", "hbRefresh"}` // repaired by pat
 func mcJob(name, nodes string, nconns int, clients, shapes, fixsets string) fw.TLCJob {
 	return fw.TLCJob{Name: name, Module: "ConnState", Cfg: "ConnState_mc.cfg", Workers: 8, Timeout: 14 * time.Minute, Consts: map[string]string{
 		"NODES": nodes, "NCONNS": fmt.Sprint(nconns), "CLIENTS": clients, "SHAPES": shapes, "FIXSETS": fixsets,
-		"LOOKUPS": "FALSE", "WLOOKUP": "FALSE", "KEEPCA": "FALSE", "USEREQ": "FALSE", "INVS": "Repaired LookupPure"}}
+		"LOOKUPS": "FALSE", "WLOOKUP": "FALSE", "KEEPCA": "FALSE", "USEREQ": "FALSE", "IDXRENEW": "checkSet", "RECRENEW": "set", "INFLIGHT": "FALSE", "CAUSES": `{"peer", "sweep"}`, "CSTATE": "FALSE",
+		"INVS": "Repaired RepairedTree LookupPure"}}
+}
+
+// flightJob: store operations running storage call by storage call between the events of other
+// connections.  The tree as it is reaches a violation only through staleIdxWrite / staleIdxDelete
+// (RepairedTree); with compare-and-renew / compare-and-delete none is reachable (Repaired).
+// withState switches the cloud-control client runtime state sub-model on (StateLiveOrDev / StateClosedOrDev /
+// StateRepaired) and adds the close cause that leaves that state behind (kick)
+func withState(j fw.TLCJob) fw.TLCJob {
+	j.Consts["CAUSES"], j.Consts["CSTATE"] = `{"peer", "sweep", "kick"}`, "TRUE"
+	return j
+}
+
+func flightJob(name, nodes string, nconns int, fixsets string) fw.TLCJob {
+	j := mcJob(name, nodes, nconns, `{"X"}`, `{"str"}`, fixsets)
+	j.Consts["INFLIGHT"] = "TRUE"
+	return j
+}
+
+// renewJob checks another design of the heartbeat refresh (IDXRENEW / RECRENEW): FindLive fails there
+// only through the design's named deviation
+func renewJob(name, idx, rec string) fw.TLCJob {
+	j := mcJob(name, two, 2, `{"X"}`, `{"str"}`, "{"+treeFixes+"}")
+	j.Consts["IDXRENEW"], j.Consts["RECRENEW"], j.Consts["INVS"] = idx, rec, ""
+	return j
 }
 
 // altJob checks one of the other designs (KEEPCA: expiry derived from the first registration,
 // USEREQ: record filled from the request's client id): FindLive fails there only through its deviation
 func altJob(name, which string) fw.TLCJob {
-	j := mcJob(name, two, 2, `{"X"}`, `{"str"}`, "{"+allFixes+"}")
+	j := mcJob(name, two, 2, `{"X"}`, `{"str"}`, "{"+treeFixes+"}")
 	j.Consts[which], j.Consts["INVS"] = "TRUE", ""
 	return j
 }
 
 func genJob(name, nodes string, nconns int, clients string, maxClock, maxHist int, shapes, fixes, only string) fw.TLCJob {
-	lookups := "FALSE"
+	lookups, inflight := "FALSE", "FALSE"
 	if only == "lookup" {
 		lookups = "TRUE"
 	}
+	if only == "race" {
+		inflight = "TRUE"
+	}
 	return fw.TLCJob{Name: name, Module: "ConnState", Cfg: "ConnState_gen.cfg", Workers: 1, Consts: map[string]string{
 		"NODES": nodes, "NCONNS": fmt.Sprint(nconns), "CLIENTS": clients, "MAXCLOCK": fmt.Sprint(maxClock), "MAXHIST": fmt.Sprint(maxHist),
-		"SHAPES": shapes, "FIXES": fixes, "ONLY": only, "LOOKUPS": lookups}}
+		"SHAPES": shapes, "FIXES": fixes, "ONLY": only, "LOOKUPS": lookups, "INFLIGHT": inflight}}
 }
 
 // two-step lookups: read-only as-is (LookupPure), and the writing-lookup design whose only route to
 // a violation is the deviation "lookupErased"
 func lkJob(name, nodes string, nconns int, fixsets string, writing bool) fw.TLCJob {
 	j := mcJob(name, nodes, nconns, `{"X"}`, `{"str"}`, fixsets)
-	j.Consts["LOOKUPS"], j.Consts["WLOOKUP"], j.Consts["INVS"] = "TRUE", "FALSE", "Repaired LookupPure"
+	j.Consts["LOOKUPS"], j.Consts["WLOOKUP"] = "TRUE", "FALSE"
 	if writing {
 		j.Consts["WLOOKUP"], j.Consts["INVS"] = "TRUE", ""
 	}
@@ -678,7 +1051,9 @@ const (
 
 var (
 	// no repair, every single repair, the three of C08-1..3, all four
-	someSubsets = `{{}, {"ptrShape"}, {"condIdxDelete"}, {"hbRefresh"}, {"successOnly"}, ` + firstThree + ", " + allFixes + "}"
+	// (the four single-repair sets were checked in rounds 1-2; the thorough budget now goes to the in-flight
+	// and client-state jobs)
+	someSubsets = `{{}, ` + firstThree + ", " + treeFixes + ", " + allFixes + "}"
 )
 
 func main() {
@@ -687,27 +1062,40 @@ func main() {
 		DesignRef: "DESIGN.md §5 C08",
 		ModelJobs: func(env *fw.Env) []fw.TLCJob {
 			if env.Tier == "thorough" {
-				both := "{" + firstThree + ", " + allFixes + "}"
+				both := "{" + firstThree + ", " + treeFixes + "}"
+				tree := "{" + treeFixes + "}"
+				onlyPeer := func(j fw.TLCJob) fw.TLCJob { j.Consts["CAUSES"] = `{"peer"}`; return j }
 				return []fw.TLCJob{
 					mcJob("mc:1x3:str:fix-subsets", two, 3, `{"X"}`, `{"str"}`, someSubsets),
-					mcJob("mc:1x3:ptr+map", two, 3, `{"X"}`, `{"ptr", "map"}`, `{{}, {"ptrShape"}, `+firstThree+", "+allFixes+"}"),
-					mcJob("mc:2x3", two, 3, `{"X", "Y"}`, `{"str"}`, both),
-					mcJob("mc:3nodes:1x3", three, 3, `{"X"}`, `{"str"}`, both),
-					mcJob("mc:1x4", two, 4, `{"X"}`, `{"str"}`, "{"+allFixes+"}"),
-					lkJob("mc:lookup:1x3", two, 3, both, false),
+					withState(mcJob("mc:state:1x3", two, 3, `{"X"}`, `{"str"}`, "{"+treeFixes+", "+allFixes+"}")),
+					withState(mcJob("mc:state:2x2", two, 2, `{"X", "Y"}`, `{"str"}`, "{"+treeFixes+", "+allFixes+"}")),
+					withState(flightJob("mc:state:inflight:1x2", two, 2, "{"+treeFixes+"}")),
+					mcJob("mc:1x3:ptr+map", two, 3, `{"X"}`, `{"ptr", "map"}`, `{{}, `+treeFixes+"}"),
+					mcJob("mc:2x3", two, 3, `{"X", "Y"}`, `{"str"}`, tree),
+					mcJob("mc:3nodes:1x3", three, 3, `{"X"}`, `{"str"}`, tree),
+					onlyPeer(mcJob("mc:1x4", two, 4, `{"X"}`, `{"str"}`, tree)),
+					lkJob("mc:lookup:1x3", two, 3, tree, false),
 					lkJob("mc:lookup:3nodes:1x2", three, 2, both, false),
-					lkJob("mc:writing-lookup:1x3", two, 3, "{"+allFixes+"}", true),
-					lkJob("mc:writing-lookup:1x2", two, 2, "{"+allFixes+"}", true),
+					lkJob("mc:writing-lookup:1x3", two, 3, "{"+treeFixes+"}", true),
+					lkJob("mc:writing-lookup:1x2", two, 2, "{"+treeFixes+"}", true),
+					flightJob("mc:inflight:1x2", two, 2, "{"+treeFixes+", "+allFixes+"}"),
+					flightJob("mc:inflight:3nodes:1x2", three, 2, "{"+treeFixes+", "+allFixes+"}"),
 					altJob("mc:keep-created-at:1x2", "KEEPCA"),
 					altJob("mc:request-id:1x2", "USEREQ"),
+					renewJob("mc:renew-idx-cas-stub:1x2", "cas", "set"),
+					renewJob("mc:renew-idx-blind:1x2", "blind", "set"),
+					renewJob("mc:renew-idx-none:1x2", "none", "set"),
+					renewJob("mc:renew-rec-none:1x2", "checkSet", "none"),
+					renewJob("mc:renew-rec-from-created:1x2", "checkSet", "fromCreated"),
 				}
 			}
 			// quick: the string shape with the three repairs of C08-1..3 and with all four (the code
 			// without any repair, the pointer and map shapes: thorough; their routes to a violation
 			// are also driven from gen:dev)
 			return []fw.TLCJob{
-				mcJob("mc:1x3", two, 3, `{"X"}`, `{"str"}`, "{"+allFixes+"}"), // the tree as it is now (C08-1..4 applied); other fix sets: thorough
-				lkJob("mc:lookup:1x2", two, 2, "{"+allFixes+"}", false),
+				withState(mcJob("mc:1x3", two, 3, `{"X"}`, `{"str"}`, "{"+treeFixes+"}")), // the tree as it is now (C08-1..4 applied); other fix sets: thorough
+				lkJob("mc:lookup:1x2", two, 2, "{"+treeFixes+"}", false),
+				flightJob("mc:inflight:1x2", two, 2, "{"+treeFixes+"}"),
 				// the alternative designs (writing lookup, expiry from first registration, record from
 				// the request id) are checked in the thorough tier
 			}
@@ -723,27 +1111,30 @@ func main() {
 			// connection while the lookup still found it.
 			if env.Tier == "thorough" {
 				return []fw.TLCJob{
-					genJob("gen:first", three, 3, `{"X"}`, 2, 8, `{"str"}`, allFixes, "first"),
+					genJob("gen:first", three, 3, `{"X"}`, 2, 8, `{"str"}`, treeFixes, "first"),
 					genJob("gen:dev", two, 3, `{"X", "Y"}`, 3, 8, `{"str", "ptr"}`, "{}", "dev"),
-					genJob("gen:lost", two, 3, `{"X", "Y"}`, 3, 8, `{"str"}`, allFixes, "lost"),
-					genJob("gen:close", two, 3, `{"X", "Y"}`, 3, 8, `{"str"}`, allFixes, "close"),
-					genJob("gen:lookup", three, 3, `{"X"}`, 2, 9, `{"str"}`, allFixes, "lookup"),
-					genJob("gen:reauth", two, 3, `{"X", "Y"}`, 3, 8, `{"str"}`, allFixes, "reauth"),
-					genJob("gen:long", two, 3, `{"X"}`, 3, 9, `{"str"}`, allFixes, "long"),
-					genJob("gen:longre", two, 3, `{"X"}`, 3, 9, `{"str"}`, allFixes, "longre"),
+					genJob("gen:lost", two, 3, `{"X", "Y"}`, 3, 8, `{"str"}`, treeFixes, "lost"),
+					genJob("gen:close", two, 3, `{"X", "Y"}`, 3, 8, `{"str"}`, treeFixes, "close"),
+					genJob("gen:lookup", three, 3, `{"X"}`, 2, 9, `{"str"}`, treeFixes, "lookup"),
+					genJob("gen:reauth", two, 3, `{"X", "Y"}`, 3, 8, `{"str"}`, treeFixes, "reauth"),
+					genJob("gen:long", two, 3, `{"X"}`, 3, 9, `{"str"}`, treeFixes, "long"),
+					genJob("gen:longre", two, 3, `{"X"}`, 3, 9, `{"str"}`, treeFixes, "longre"),
 					genJob("gen:asis", two, 3, `{"X", "Y"}`, 3, 7, `{"str"}`, "{}", "all"),
 					genJob("gen:asis-ptr", two, 3, `{"X"}`, 3, 8, `{"ptr"}`, "{}", "all"),
 					genJob("gen:3nodes", three, 3, `{"X"}`, 3, 7, `{"str"}`, "{}", "all"),
+					genJob("gen:race", two, 2, `{"X"}`, 1, 10, `{"str"}`, treeFixes, "race"),
+					genJob("gen:race3", three, 3, `{"X"}`, 0, 9, `{"str"}`, treeFixes, "race"),
 				}
 			}
 			// quick: the targeted covers share TLC runs where the sample cannot starve either part
 			// (lost+close, long+longre); the two-client cover is left to the thorough tier
 			return []fw.TLCJob{
 				genJob("gen:dev", two, 3, `{"X"}`, 3, 6, `{"str", "ptr"}`, "{}", "dev"),
-				genJob("gen:lost+close", two, 3, `{"X"}`, 3, 7, `{"str"}`, allFixes, "lostclose"),
-				genJob("gen:lookup", two, 2, `{"X"}`, 2, 8, `{"str"}`, allFixes, "lookup"),
-				genJob("gen:re+long", two, 3, `{"X"}`, 3, 7, `{"str"}`, allFixes, "relong"),
+				genJob("gen:lost+close", two, 3, `{"X"}`, 3, 7, `{"str"}`, treeFixes, "lostclose"),
+				genJob("gen:lookup", two, 2, `{"X"}`, 2, 8, `{"str"}`, treeFixes, "lookup"),
+				genJob("gen:re+long", two, 3, `{"X"}`, 3, 7, `{"str"}`, treeFixes, "relong"),
 				genJob("gen:asis", two, 3, `{"X"}`, 3, 7, `{"str"}`, "{}", "all"),
+				genJob("gen:race", two, 2, `{"X"}`, 1, 10, `{"str"}`, treeFixes, "race"),
 			}
 		},
 		MaxBehSrc: func(env *fw.Env, src string) int {
@@ -758,6 +1149,8 @@ func main() {
 				return 60
 			case "gen:re+long":
 				return 84
+			case "gen:race":
+				return 72
 			}
 			return 36
 		},
@@ -771,6 +1164,9 @@ func main() {
 				return nil
 			}
 			seenBeh[key] = true
+			if strings.HasPrefix(src, "gen:race") {
+				return expandRace(env, steps)
+			}
 			// A client's first successful handshake may equally be a first-connection handshake
 			// (AuthOK(n,c,x,"new"): same store effect in the model, enabled whenever x was never seen):
 			// every second behaviour takes that variant for each client that allows it.
@@ -813,17 +1209,73 @@ func main() {
 			}
 			return n >= 3
 		},
-		Rule: "one behaviour per transition (state, session event incl. undeliverable handshakes and closes by cause peer/cmd/sweep/kick) of the bounded ConnState state graph (shortest history to the state + the event), plus targeted covers: every model-predicted route to a deviation (gen:dev), undeliverable handshakes while connected elsewhere (gen:lost), closes of the last connection by command/kick/sweep (gen:close), two-step lookups overtaken by a handshake elsewhere / a cleanup and followed by a heartbeat (gen:lookup), successful re-handshakes on an authenticated connection that the store no longer names (gen:reauth), sessions (gen:long) and re-handshakes (gen:longre) on a connection older than one registration lifetime, first-connection handshakes with a server-allocated identity (gen:first); each replayed on the memory, Redis and tiered wirings; non-trivial = at least 3 session events",
+		Rule: "one behaviour per transition (state, session event incl. undeliverable handshakes and closes by cause peer/cmd/sweep/kick) of the bounded ConnState state graph (shortest history to the state + the event), plus targeted covers: every model-predicted route to a deviation (gen:dev), undeliverable handshakes while connected elsewhere (gen:lost), closes of the last connection by command/kick/sweep (gen:close), two-step lookups overtaken by a handshake elsewhere / a cleanup and followed by a heartbeat (gen:lookup), successful re-handshakes on an authenticated connection that the store no longer names (gen:reauth), sessions (gen:long) and re-handshakes (gen:longre) on a connection older than one registration lifetime, first-connection handshakes with a server-allocated identity (gen:first); each replayed on the memory, Redis and tiered wirings; plus store operations in flight (gen:race): a heartbeat's RefreshConnection, a close's UnregisterConnection or a handshake's RegisterConnection released storage call by storage call with events of the same client on other connections in between - a bounded number per class (operation kind x calls made before the window's first event x what fell into the window), each on one wiring (rotating); non-trivial = at least 3 session events",
 		Assumptions: []string{
-			"nodes are SessionManager assemblies in one process sharing a store (srvkit); client identities are provisioned on every node's config repository",
+			"nodes are SessionManager assemblies in one process (srvkit), each holding the storage its wiring gives it over ONE shared store: client configs, the cloud-control client runtime state and the id generators are shared as in a deployment; all nodes use one master key",
+			"the cloud-control client runtime state (StateLive / StateClosed) is read through ClientStateRepository.GetState on every node's storage and through GetClientNodeID; its 90 s lifetime is not scaled down, so no behaviour meets its expiry",
+			"a store operation in flight is the real event (heartbeat packet, close by its cause, two-phase handshake) run as a scheduler process that parks in front of every storage call on tunnox:conn_state:/tunnox:client_conn: keys of the node's storage; nothing is demanded for the client while it is in flight; a heartbeat counts from its begin, a handshake is the most recent one from the moment RegisterConnection starts (the response has been delivered), a close counts from its end",
+			"routing decisions are observed at two call sites: SendCommandToClient and SendHTTPProxyRequest (the peer listener answers command and HTTP-proxy frames)",
+			"the stale sweep is the server's own cleanupStaleConnections (bound by go:linkname) after the victim's LastActiveAt was moved two hours back",
 			"registration lifetime 500 ms = 2 model ticks of 300 ms; behaviours whose steps overran the margin are discarded as inconclusive",
 			"miniredis stands in for Redis; its virtual clock is advanced together with the real sleep",
 			"a two-step lookup is FindClientNode run as a scheduler process whose read of the connection record is parked at a gate in front of the node's storage (harness/sched); nothing is demanded of its own answer",
 			"a peer listener per node stands in for CrossNodeListener to make the forwarding decision of SendCommandToClient observable",
-			"an undeliverable handshake response is a transport that dies at the server's first write after the challenge phase; a heartbeat timeout is the victim's LastActiveAt moved one hour back followed by ClientRegistry.CleanupStale with the sweep's CloseConnection callback; every close cause ends with the read loop over (CloseConnection)",
+			"an undeliverable handshake response is a transport that dies at the server's first write after the challenge phase; every close cause ends with the read loop over (CloseConnection)",
 		},
 		TrustedBase: []string{"TLC", "spec/ConnStateTrace.tla as the reading of the statement", "srvkit (server assembly with fake transports)", "miniredis"},
 	})
+}
+
+// expandRace thins the cover of in-flight operations: the behaviours are classed by the kind of the
+// operation, by how many storage calls it had made when the window's first event happened and by
+// what fell into the window; every class keeps a bounded number of behaviours (more in the thorough
+// tier), each on ONE wiring (rotating), so that the sample spreads over classes and wirings.
+var (
+	raceClass = map[string]int{}
+	raceK     int
+)
+
+func expandRace(env *fw.Env, steps []step) []json.RawMessage {
+	begin := -1
+	for i, st := range steps {
+		if st.A == "OpBegin" {
+			begin = i
+		}
+	}
+	if begin < 0 {
+		return nil
+	}
+	kind := steps[begin].W
+	if kind != "hb" && kind != "auth" {
+		kind = "close:" + kind
+	}
+	before, inner := 0, []string{}
+	for _, st := range steps[begin+1:] {
+		switch {
+		case st.A == "OpStep" && len(inner) == 0:
+			before++
+		case st.A != "OpStep":
+			e := st.A
+			if st.C == steps[begin].C {
+				e += "@same"
+			}
+			if st.N == steps[begin].N {
+				e += "@node"
+			}
+			inner = append(inner, e)
+		}
+	}
+	class := fmt.Sprintf("%s|%d|%s", kind, before, strings.Join(inner, ","))
+	keep := 2
+	if env.Tier == "thorough" {
+		keep = 6
+	}
+	if raceClass[class] >= keep {
+		return nil
+	}
+	raceClass[class]++
+	raceK++
+	return []json.RawMessage{fw.MustJSON(behaviour{Be: wire.Names[raceK%len(wire.Names)], Steps: steps})}
 }
 
 func selfTest(env *fw.Env, acc []*fw.Trace) []*fw.Trace {
@@ -832,6 +1284,21 @@ func selfTest(env *fw.Env, acc []*fw.Trace) []*fw.Trace {
 	// stale "found".  The judge must reject each corrupted copy.
 	var out []*fw.Trace
 	id := 1 << 24
+	// traces with a store operation in flight have their own corruption (3): inside the window the
+	// judge demands nothing for the client, so (1) and (2) could hit an observation without a demand
+	var plain, flights []*fw.Trace
+	for _, t := range acc {
+		inflight := false
+		for _, e := range t.Events {
+			inflight = inflight || e["ev"] == "OpBegin"
+		}
+		if inflight {
+			flights = append(flights, t)
+		} else {
+			plain = append(plain, t)
+		}
+	}
+	acc = plain
 	for _, t := range acc {
 		if len(out) >= 40 {
 			break
@@ -860,7 +1327,7 @@ func selfTest(env *fw.Env, acc []*fw.Trace) []*fw.Trace {
 				c.Events = append(c.Events, e)
 				continue
 			}
-			ne := fw.Event{"ev": "Obs", "routes": e["routes"]}
+			ne := fw.Event{"ev": "Obs", "routes": e["routes"], "states": e["states"]}
 			var fs []any
 			for j, f := range e["finds"].([]any) {
 				m := f.(map[string]any)
@@ -921,7 +1388,7 @@ func selfTest(env *fw.Env, acc []*fw.Trace) []*fw.Trace {
 				c.Events = append(c.Events, e)
 				continue
 			}
-			ne := fw.Event{"ev": "Obs", "routes": e["routes"]}
+			ne := fw.Event{"ev": "Obs", "routes": e["routes"], "states": e["states"]}
 			var fs []any
 			for _, f := range e["finds"].([]any) {
 				m := f.(map[string]any)
@@ -935,6 +1402,135 @@ func selfTest(env *fw.Env, acc []*fw.Trace) []*fw.Trace {
 		}
 		out = append(out, c)
 		stale++
+	}
+	// (4) the client runtime state right after a successful handshake (no undeliverable handshake before
+	// it in the trace): turn "found" into "none" / into another node, leaving the lookups alone
+	nstate := 0
+	for _, t := range acc {
+		if nstate >= 20 {
+			break
+		}
+		idx, who := -1, ""
+		for i, e := range t.Events {
+			if e["ev"] == "AuthLost" {
+				break
+			}
+			if e["ev"] == "Auth" && i+1 < len(t.Events) {
+				obs := t.Events[i+1]
+				sts, _ := obs["states"].([]any)
+				for _, f := range sts {
+					if m := f.(map[string]any); m["x"] == e["x"] && m["r"] == "found" {
+						idx, who = i+1, e["x"].(string)
+					}
+				}
+			}
+		}
+		if idx < 0 {
+			continue
+		}
+		c := &fw.Trace{Status: fw.Realised, Beh: t.Beh}
+		id++
+		c.Beh.ID = id
+		for i, e := range t.Events {
+			if i != idx {
+				c.Events = append(c.Events, e)
+				continue
+			}
+			ne := fw.Event{"ev": "Obs", "routes": e["routes"], "finds": e["finds"]}
+			var ss []any
+			for j, f := range e["states"].([]any) {
+				m := f.(map[string]any)
+				if m["x"] == who {
+					if (id+j)%2 == 0 {
+						m = map[string]any{"from": m["from"], "x": who, "r": "none", "node": "-", "conn": "-", "svc": "-"}
+					} else {
+						m = map[string]any{"from": m["from"], "x": who, "r": "found", "node": "Z", "conn": m["conn"], "svc": "Z"}
+					}
+				}
+				ss = append(ss, m)
+			}
+			ne["states"] = ss
+			c.Events = append(c.Events, ne)
+		}
+		out = append(out, c)
+		nstate++
+	}
+	// (3) right after the end of an in-flight operation the usual demands apply again: where the
+	// client's latest handshake (atomic or in flight) is on a connection still open and no tick has
+	// passed since, turn that observation's "found" into "notfound"
+	races := 0
+	for _, t := range flights {
+		if races >= 20 {
+			break
+		}
+		last, closed := map[string]string{}, map[string]bool{}
+		fresh := map[string]bool{} // no tick since the client's latest handshake
+		opKind, opConn := "", ""
+		idx, who := -1, ""
+		for i, e := range t.Events {
+			switch e["ev"] {
+			case "Auth":
+				x := e["x"].(string)
+				last[x], fresh[x] = e["c"].(string), true
+				for _, v := range e["evicted"].([]any) {
+					closed[v.(string)] = true
+				}
+			case "OpBegin":
+				opKind, opConn = e["k"].(string), e["c"].(string)
+				for _, v := range e["evicted"].([]any) {
+					closed[v.(string)] = true
+				}
+				if opKind == "auth" {
+					x := e["x"].(string)
+					last[x], fresh[x] = opConn, true
+				}
+				if opKind == "close" {
+					closed[opConn] = true
+				}
+			case "Close":
+				closed[e["c"].(string)] = true
+			case "AuthLost":
+				closed[e["c"].(string)] = true
+			case "Tick":
+				for x := range fresh {
+					fresh[x] = false
+				}
+			case "OpEnd":
+				x, _ := e["x"].(string)
+				if c := last[x]; c != "" && !closed[c] && fresh[x] && i+1 < len(t.Events) && t.Events[i+1]["ev"] == "Obs" {
+					for _, f := range t.Events[i+1]["finds"].([]any) {
+						if m := f.(map[string]any); m["x"] == x && m["r"] == "found" {
+							idx, who = i+1, x
+						}
+					}
+				}
+			}
+		}
+		if idx < 0 {
+			continue
+		}
+		c := &fw.Trace{Status: fw.Realised, Beh: t.Beh}
+		id++
+		c.Beh.ID = id
+		for i, e := range t.Events {
+			if i != idx {
+				c.Events = append(c.Events, e)
+				continue
+			}
+			ne := fw.Event{"ev": "Obs", "routes": e["routes"], "states": e["states"]}
+			var fs []any
+			for _, f := range e["finds"].([]any) {
+				m := f.(map[string]any)
+				if m["x"] == who {
+					m = map[string]any{"from": m["from"], "x": who, "r": "notfound", "node": "-", "conn": "-"}
+				}
+				fs = append(fs, m)
+			}
+			ne["finds"] = fs
+			c.Events = append(c.Events, ne)
+		}
+		out = append(out, c)
+		races++
 	}
 	return out
 }
